@@ -125,44 +125,100 @@ Qed.
 (* ------------------------------------------------------------------------------------------------ *)
 (* the two while loops *)
 
-Lemma drop_front_spec cs : forall start stop shape off, 0 <= start ->
+Lemma drop_front_cons2 c c2 t start stop shape off :
+  drop_front (c :: c2 :: t) start stop shape off
+  = if c <=? start then drop_front (c2 :: t) (start - c) (stop - c) (shape - c) (off + c)
+    else (c :: c2 :: t, (start, stop, shape, off)).
+Proof. reflexivity. Qed.
+Lemma drop_back_cons2 c c2 t stop shape :
+  drop_back (c :: c2 :: t) stop shape = if c <=? shape - stop then drop_back (c2 :: t) stop (shape - c) else c :: c2 :: t.
+Proof. reflexivity. Qed.
+
+(* the loops only drop whole chunks from the two ends and never the last remaining one (ANY selection) *)
+Lemma drop_front_struct cs : forall start stop shape off,
+  exists pre cs1, cs = pre ++ cs1 /\
+    drop_front cs start stop shape off
+      = (cs1, (start - sumZ pre, stop - sumZ pre, shape - sumZ pre, off + sumZ pre)) /\
+    (cs <> [] -> cs1 <> []).
+Proof.
+  induction cs as [|c cs IH]; intros start stop shape off.
+  - exists [], []. cbn [drop_front]. rewrite sumZ_nil, !Z.sub_0_r, Z.add_0_r. repeat split; auto.
+  - destruct cs as [|c2 cs'].
+    + exists [], [c]. cbn [drop_front]. rewrite sumZ_nil, !Z.sub_0_r, Z.add_0_r. repeat split; auto.
+    + rewrite drop_front_cons2. destruct (c <=? start) eqn:E.
+      * destruct (IH (start - c) (stop - c) (shape - c) (off + c)) as (pre & cs1 & Hcs & Hdf & Hne).
+        exists (c :: pre), cs1. rewrite sumZ_cons. repeat split.
+        -- cbn [app]. f_equal. exact Hcs.
+        -- rewrite Hdf. repeat (f_equal; try lia).
+        -- intros _. apply Hne. discriminate.
+      * exists [], (c :: c2 :: cs'). rewrite sumZ_nil, !Z.sub_0_r, Z.add_0_r. repeat split; auto.
+Qed.
+
+Lemma drop_back_struct rcs : forall stop shape,
+  exists post rest, rcs = post ++ rest /\ drop_back rcs stop shape = rest /\ (rcs <> [] -> rest <> []).
+Proof.
+  induction rcs as [|c rcs IH]; intros stop shape.
+  - exists [], []. repeat split; auto.
+  - destruct rcs as [|c2 rcs'].
+    + exists [], [c]. repeat split; auto.
+    + rewrite drop_back_cons2. destruct (c <=? shape - stop) eqn:E.
+      * destruct (IH stop (shape - c)) as (post & rest & Hcs & Hdb & Hne).
+        exists (c :: post), rest. repeat split.
+        -- cbn [app]. f_equal. exact Hcs.
+        -- exact Hdb.
+        -- intros _. apply Hne. discriminate.
+      * exists [], (c :: c2 :: rcs'). repeat split; auto.
+Qed.
+
+(* for a selection that starts inside the array the first loop stops at the chunk containing the start *)
+Lemma drop_front_spec cs : forall start stop shape off, 0 <= start -> start < sumZ cs ->
   exists pre cs1, cs = pre ++ cs1 /\
     drop_front cs start stop shape off
       = (cs1, (start - sumZ pre, stop - sumZ pre, shape - sumZ pre, off + sumZ pre)) /\
     sumZ pre <= start /\
     (forall c t, cs1 = c :: t -> start - sumZ pre < c).
 Proof.
-  induction cs as [|c cs IH]; intros start stop shape off H0; cbn [drop_front].
-  - exists [], []. rewrite sumZ_nil, !Z.sub_0_r, Z.add_0_r.
-    repeat split; auto; try lia. intros; discriminate.
-  - destruct (c <=? start) eqn:E.
-    + destruct (IH (start - c) (stop - c) (shape - c) (off + c)) as (pre & cs1 & Hcs & Hdf & Hle & Hhd); [lia|].
-      exists (c :: pre), cs1. rewrite sumZ_cons. repeat split.
-      * cbn [app]. f_equal. exact Hcs.
-      * rewrite Hdf. repeat (f_equal; try lia).
-      * lia.
-      * intros c0 t Heq. specialize (Hhd c0 t Heq). lia.
-    + exists [], (c :: cs). rewrite sumZ_nil, !Z.sub_0_r, Z.add_0_r.
+  induction cs as [|c cs IH]; intros start stop shape off H0 Hlt.
+  - rewrite sumZ_nil in Hlt. lia.
+  - destruct cs as [|c2 cs'].
+    + exists [], [c]. cbn [drop_front]. rewrite sumZ_nil, !Z.sub_0_r, Z.add_0_r.
+      rewrite sumZ_cons, sumZ_nil in Hlt.
       repeat split; auto; try lia. intros c0 t Heq. inversion Heq; subst. lia.
+    + rewrite drop_front_cons2. destruct (c <=? start) eqn:E.
+      * rewrite sumZ_cons in Hlt.
+        destruct (IH (start - c) (stop - c) (shape - c) (off + c)) as (pre & cs1 & Hcs & Hdf & Hle & Hhd); [lia | lia |].
+        exists (c :: pre), cs1. rewrite sumZ_cons. repeat split.
+        -- cbn [app]. f_equal. exact Hcs.
+        -- rewrite Hdf. repeat (f_equal; try lia).
+        -- lia.
+        -- intros c0 t Heq. specialize (Hhd c0 t Heq). lia.
+      * exists [], (c :: c2 :: cs'). rewrite sumZ_nil, !Z.sub_0_r, Z.add_0_r.
+        repeat split; auto; try lia. intros c0 t Heq. inversion Heq; subst. lia.
 Qed.
 
-Lemma drop_back_spec rcs : forall stop shape, stop <= shape ->
+(* for a selection that stops after position 0 of the remaining chunks the second loop stops at the chunk
+   containing the last selected element *)
+Lemma drop_back_spec rcs : forall stop shape, stop <= shape -> shape = sumZ rcs -> 0 < stop ->
   exists post rest, rcs = post ++ rest /\
     drop_back rcs stop shape = rest /\
     sumZ post <= shape - stop /\
     (forall c t, rest = c :: t -> shape - sumZ post - stop < c).
 Proof.
-  induction rcs as [|c rcs IH]; intros stop shape Hss; cbn [drop_back].
-  - exists [], []. rewrite sumZ_nil. repeat split; auto; try lia. intros; discriminate.
-  - destruct (c <=? shape - stop) eqn:E.
-    + destruct (IH stop (shape - c)) as (post & rest & Hcs & Hdb & Hle & Hhd); [lia|].
-      exists (c :: post), rest. rewrite sumZ_cons. repeat split.
-      * cbn [app]. f_equal. exact Hcs.
-      * exact Hdb.
-      * lia.
-      * intros c0 t Heq. specialize (Hhd c0 t Heq). lia.
-    + exists [], (c :: rcs). rewrite sumZ_nil.
+  induction rcs as [|c rcs IH]; intros stop shape Hss Hsh Hst.
+  - rewrite sumZ_nil in Hsh. lia.
+  - destruct rcs as [|c2 rcs'].
+    + exists [], [c]. cbn [drop_back]. rewrite sumZ_nil. rewrite sumZ_cons, sumZ_nil in Hsh.
       repeat split; auto; try lia. intros c0 t Heq. inversion Heq; subst. lia.
+    + rewrite drop_back_cons2. destruct (c <=? shape - stop) eqn:E.
+      * rewrite sumZ_cons in Hsh.
+        destruct (IH stop (shape - c)) as (post & rest & Hcs & Hdb & Hle & Hhd); [lia | lia | lia |].
+        exists (c :: post), rest. rewrite sumZ_cons. repeat split.
+        -- cbn [app]. f_equal. exact Hcs.
+        -- exact Hdb.
+        -- lia.
+        -- intros c0 t Heq. specialize (Hhd c0 t Heq). lia.
+      * exists [], (c :: c2 :: rcs'). rewrite sumZ_nil.
+        repeat split; auto; try lia. intros c0 t Heq. inversion Heq; subst. lia.
 Qed.
 
 (* ------------------------------------------------------------------------------------------------ *)
@@ -186,10 +242,11 @@ Proof.
     rewrite app_nil_r, sumZ_nil, !Z.sub_0_r in K. cbn [app] in K.
     apply K; auto; try constructor; try lia.
     destruct m as [|c m']; cbn [hd]; [lia|]. inversion Hm; subst. lia.
-  - destruct (drop_front_spec cs s e (sumZ cs) 0 Hs) as (pre & cs1 & Hcs & Hdf & Hle & Hhd).
+  - destruct (drop_front_spec cs s e (sumZ cs) 0 Hs ltac:(lia)) as (pre & cs1 & Hcs & Hdf & Hle & Hhd).
     rewrite Hdf. cbv beta iota zeta.
     destruct (drop_back_spec (rev cs1) (e - sumZ pre) (sumZ cs - sumZ pre))
-      as (post & rest & Hr & Hdb & Hle2 & Hlast); [lia|].
+      as (post & rest & Hr & Hdb & Hle2 & Hlast);
+      [lia | rewrite sumZ_rev, Hcs, sumZ_app; lia | lia |].
     rewrite Hdb.
     assert (Hcs1 : cs1 = rev rest ++ rev post).
     { rewrite <- rev_app_distr, <- Hr, rev_involutive. reflexivity. }
@@ -212,6 +269,53 @@ Proof.
     destruct m as [|c m']; cbn [hd app] in *.
     + specialize (Hhd _ _ eq_refl). lia.
     + specialize (Hhd _ _ eq_refl). lia.
+Qed.
+
+(* ANY selection: the pruned chunking is a non-empty run of consecutive chunks of the original one, the offset is
+   the total size of the chunks dropped in front, the slice is shifted by exactly that *)
+Lemma prune_axis_struct : forall cs s e, cs <> [] ->
+  exists pre cs' post,
+    cs = pre ++ cs' ++ post /\ cs' <> [] /\
+    prune_axis cs (s, e) = (cs', (s - sumZ pre, e - sumZ pre), sumZ pre).
+Proof.
+  intros cs s e Hne. unfold prune_axis. cbn [fst snd].
+  destruct ((s =? 0) && (e =? sumZ cs)) eqn:Efull.
+  - exists [], cs, []. rewrite app_nil_r, sumZ_nil, !Z.sub_0_r. cbn [app]. repeat split; auto.
+  - destruct (drop_front_struct cs s e (sumZ cs) 0) as (pre & cs1 & Hcs & Hdf & Hne1).
+    rewrite Hdf. cbv beta iota zeta.
+    destruct (drop_back_struct (rev cs1) (e - sumZ pre) (sumZ cs - sumZ pre)) as (post & rest & Hr & Hdb & Hne2).
+    rewrite Hdb.
+    assert (Hcs1 : cs1 = rev rest ++ rev post).
+    { rewrite <- rev_app_distr, <- Hr, rev_involutive. reflexivity. }
+    assert (Hrest : rev rest <> []).
+    { intro E. apply Hne2.
+      - intro E2. apply (Hne1 Hne). rewrite <- (rev_involutive cs1), E2. reflexivity.
+      - rewrite <- (rev_involutive rest), E. reflexivity. }
+    exists pre, (rev rest), (rev post). rewrite Z.add_0_l. repeat split.
+    + rewrite Hcs, Hcs1. reflexivity.
+    + exact Hrest.
+    + destruct (rev rest); [congruence | reflexivity].
+Qed.
+
+(* ... hence every chunk of the pruned chunking, shifted back by the offset, is a chunk of the original chunking with
+   its boundaries unchanged -- whatever dask then takes from it (ANY selection, incl. empty ones) *)
+Lemma prune_axis_intervals : forall cs s e, cs <> [] ->
+  let '(cs', ix', off') := prune_axis cs (s, e) in
+  ix' = (s - off', e - off') /\ cs' <> [] /\
+  forall se, In se (intervals 0 cs') -> In (shift off' se) (intervals 0 cs).
+Proof.
+  intros cs s e Hne. destruct (prune_axis_struct cs s e Hne) as (pre & cs' & post & Hcs & Hne' & ->).
+  repeat split; auto. intros se Hin.
+  rewrite Hcs, intervals_app, intervals_app. apply in_or_app. right. apply in_or_app. left.
+  rewrite Z.add_0_l, <- (Z.add_0_l (sumZ pre)), <- intervals_shift. apply in_map. exact Hin.
+Qed.
+
+Lemma needed_axis_incl : forall cs ix se, In se (needed_axis cs ix) -> In se (intervals 0 cs).
+Proof.
+  intros cs ix se H. unfold needed_axis in H.
+  destruct (filter _ (intervals 0 cs)) eqn:E.
+  - destruct (intervals 0 cs); cbn [firstn] in H; [contradiction|]. destruct H as [<- | []]. left. reflexivity.
+  - rewrite <- E in H. apply filter_In in H. apply H.
 Qed.
 
 (* ------------------------------------------------------------------------------------------------ *)
@@ -368,7 +472,7 @@ Example pruned_empty_requests_refuted :
   let index := [(Some 2, Some 2)] in
   let pr := prune chunks (norm_index (chunks_shape chunks) index) in
   map (get_slices (map snd pr)) (cart (map (fun x => needed_axis (fst (fst x)) (snd (fst x))) pr))
-    = [[(2,2)]]
+    = [[(2,4)]]
   /\ spec_requested chunks index = [].
 Proof. vm_compute. split; reflexivity. Qed.
 
